@@ -400,7 +400,7 @@ def hash_seed_runs(ctx, rng, tag, seeds):
     (base / 'child.py').write_text(CHILD)
     digs = {}
     for hs in seeds:
-        env = dict(os.environ, PYTHONHASHSEED=str(hs), PYTHONPATH=f'/repo/src:{core.VERIF}', CELL_TYPE_MAPPER_VERIF='1')
+        env = dict(os.environ, PYTHONHASHSEED=str(hs), PYTHONPATH=f'{core.REPO}/src:{core.VERIF}', CELL_TYPE_MAPPER_VERIF='1')
         r = subprocess.run(['/venv/bin/python', '-W', 'ignore', str(base / 'child.py'), str(base), str(base / f'h{hs}')],
                            capture_output=True, text=True, env=env, timeout=600)
         ctx.count(('H', tag, hs), nontrivial=True)
